@@ -112,4 +112,25 @@ def swStep (_ : Unit) (ws : List String) : Unit × String :=
     | _, _, _, _ => ((), "bad-op")
   | _ => ((), "bad-op")
 
+/-- `sr <len> <filefill> <buffill> <answer…>`: the retry loop of `FileDisk.ReadTo` under a schedule; replies
+`ok|panic|running <hash of the buffer afterwards>`. -/
+def srStep (_ : Unit) (ws : List String) : Unit × String :=
+  open GooseVerif.Model.ShortWrite in
+  match ws with
+  | "sr" :: len :: ff :: bf :: answers =>
+    match len.toNat?, ff.toNat?, bf.toNat?, answers.mapM (fun a => if a = "e" then some Ans.err else a.toNat?.map Ans.wrote) with
+    | some len, some ff, some bf, some as =>
+      let render (tag : String) (g : File) : String := s!"{tag} {hashBytes ((List.range len).map g)}"
+      match readLoop len 8192 (fun _ => UInt8.ofNat ff) (fun _ => UInt8.ofNat bf) 0 as with
+      | some (.ok g) => ((), render "ok" g)
+      | some (.panic g) => ((), render "panic" g)
+      | none => ((), "running")
+    | _, _, _, _ => ((), "bad-op")
+  | _ => ((), "bad-op")
+
+def swsrStep (u : Unit) (ws : List String) : Unit × String :=
+  match ws with
+  | "sr" :: _ => srStep u ws
+  | _ => swStep u ws
+
 end Driver.Disk
